@@ -15,7 +15,9 @@ HERE = os.path.dirname(os.path.dirname(os.path.abspath(__file__)))
 def run_one(fid, timeout=600):
     t0 = time.time()
     try:
-        p = subprocess.run([PY, '-m', 'pyvc.verify', fid], capture_output=True, text=True, timeout=timeout, cwd=HERE)
+        # fixed hash seed: set / dict iteration order, hence the order of axioms and the solver's search, is the same in every run
+        p = subprocess.run([PY, '-m', 'pyvc.verify', fid], capture_output=True, text=True, timeout=timeout, cwd=HERE,
+                           env=dict(os.environ, PYTHONHASHSEED='0'))
         try:
             return json.loads(p.stdout)
         except Exception:
